@@ -9,6 +9,7 @@ import (
 	"net/http"
 	"net/url"
 	"runtime/debug"
+	"sort"
 	"strings"
 	"testing"
 
@@ -132,6 +133,64 @@ func main() {
 			}
 			if run.WantSample() {
 				run.Sample(map[string]any{"routes": c.RoutesString(), "request": q.String(), "matched": rte.Pattern(), "allocs_per_run": allocs})
+			}
+			// the same request on a router of its own, filled in another order and serving nothing else: whatever a pooled
+			// context needs for this request must be kept by this request alone (no other request warms the pool up)
+			{
+				order := append([]route.RouteSpec(nil), c.Routes...)
+				switch measured % 3 {
+				case 0:
+					for i, j := 0, len(order)-1; i < j; i, j = i+1, j-1 {
+						order[i], order[j] = order[j], order[i]
+					}
+				case 1:
+					sort.SliceStable(order, func(i, j int) bool { return len(order[i].Pattern) > len(order[j].Pattern) })
+				}
+				f2, _ := fox.New(opts...)
+				cloning := measured%4 == 0
+				h2 := h
+				if cloning {
+					// a handler that takes and releases a copy of its context, as wrapping middleware does
+					h2 = func(c fox.Context) {
+						hit++
+						cc := c.CloneWith(c.Writer(), c.Request())
+						cc.Close()
+					}
+				}
+				// one commit per route, or all in one transaction
+				if measured%2 == 0 {
+					for _, rs := range order {
+						_, _ = f2.Handle(rs.Method, rs.Pattern, h2)
+					}
+				} else {
+					_ = f2.Updates(func(t *fox.Txn) error {
+						for _, rs := range order {
+							_, _ = t.Handle(rs.Method, rs.Pattern, h2)
+						}
+						return nil
+					})
+				}
+				for i := 0; i < 5; i++ {
+					f2.ServeHTTP(w, req)
+				}
+				cold := testing.AllocsPerRun(50, func() { f2.ServeHTTP(w, req) })
+				run.Count("measured_on_a_router_of_its_own", 1)
+				if cloning {
+					run.Count("measured_with_handler_using_CloneWith", 1)
+				}
+				if cold > 0 {
+					run.Violate("allocates-alone|"+c.RoutesString()+"|"+q.String(), fmt.Sprintf("routing a matching request allocates %.2f objects per request on a router that serves only this request (after 5 warm-up requests; handler uses CloneWith+Close: %t)\nroutes in registration order: %v\nrequest: %s\nmatched: %s (slash-adjusted=%t)", cold, cloning, order, q, rte.Pattern(), tsr), c)
+				}
+				// Lookup + Close is the same routing step without the handler
+				look := testing.AllocsPerRun(50, func() {
+					if _, cc, _ := f2.Lookup(nil, req); cc != nil {
+						cc.Close()
+					}
+				})
+				run.Count("measured_lookup_close", 1)
+				if look > 0 {
+					run.Violate("allocates-lookup|"+c.RoutesString()+"|"+q.String(), fmt.Sprintf("Lookup+Close of a matching request allocates %.2f objects per call\nroutes: %v\nrequest: %s", look, order, q), c)
+				}
 			}
 			// interleaved with the previous matching request of this router: pooled slices sized by one request must
 			// still serve the other without growing again
